@@ -8,7 +8,11 @@ theorem chain_pinned : Kvass.Gen.ChainSrc.digests = [
   ("pkg/discovery/translate.go:labelsWithoutConfigParam", "1737ed7bdfe7ebed"),
   ("pkg/discovery/translate.go:supportInvalidLabelName", "c2ac4324141be57a"),
   ("pkg/discovery/translate.go:targetsFromGroup", "771e5e074f2679ff"),
-  ("pkg/sidecar/proxy.go:translateURL", "11fb4911b054768f")
+  ("pkg/sidecar/proxy.go:translateURL", "11fb4911b054768f"),
+  ("pkg/target/target.go:Target.Address", "742609c816c7bd72"),
+  ("pkg/target/target.go:Target.NoParamURL", "6871efa1750aa648"),
+  ("pkg/target/target.go:Target.NoReservedLabel", "fa6c3564137c0bfb"),
+  ("pkg/target/target.go:Target.URL", "f08fedcc2be93f7d")
 ] := rfl
 
 end Kvass.Pins
